@@ -1261,21 +1261,21 @@ class ExcAnalysis:
             ob(n, 'attribute', 'AttributeError', text, discharged='guard / type establishes the attribute exists')
 
     # -- generic discharges for Optional dereferences ---------------------------------------------------------------------
-    def _correlation_discharge(self, fn: FuncInfo, n: ast.Attribute) -> Optional[str]:
+    def _correlation_discharge(self, fn: FuncInfo, n: ast.Attribute, at: Optional[ast.AST] = None) -> Optional[str]:
         """`X.f.attr` under the fact `X.g == Enum.M`: discharged when every construction site of X's class passes a
         non-None `f` whenever it passes `g == M` (constructor-site correlation, re-verified on every run)."""
         opt = n.value
         if not isinstance(opt, ast.Attribute):
             return None
         X, f = opt.value, opt.attr
-        t = strip_opt(self.abs.type_at(fn, X, n))
+        t = strip_opt(self.abs.type_at(fn, X, at if at is not None else n))
         if t[0] != 'cls' or t[1] not in self.prog.classes:
             return None
         cls = self.prog.classes[t[1]]
         if not (cls.is_dataclass and cls.frozen):
             return None
         known: List[Tuple[str, Tuple[str, str], str]] = []
-        for cond, pol in self.abs.facts_at(n):
+        for cond, pol in self.abs.facts_at(at if at is not None else n):
             if not (pol and isinstance(cond, ast.Compare) and len(cond.ops) == 1 and
                     isinstance(cond.ops[0], (ast.Eq, ast.Is)) and isinstance(cond.left, ast.Attribute)
                     and same_expr(cond.left.value, X)):
@@ -1893,6 +1893,11 @@ class ExcAnalysis:
                 t_ = truths.pop()
                 return YES if (t_ == YES) == pol else NO
         v = A.at(cfn, arg, cnode)
+        if kind == 'none' and v.none == MAYBE and isinstance(arg, ast.Attribute) and cnode is not None:
+            # `X.f` handed on under `X.g == Enum.M`: constructor-site correlation (as for a dereference of X.f)
+            probe = ast.copy_location(ast.Attribute(value=arg, attr='_', ctx=ast.Load()), arg)
+            if self._correlation_discharge(cfn, probe, at=cnode):
+                v.none = NO
         if place in not_none and v.none != YES:
             v.none = NO
             v.type = strip_opt(v.type)
